@@ -204,7 +204,13 @@ class Parser:
                 return ("fncall", "::".join(path), args)
             return ("id", "::".join(path))
         if v == "(":
-            e = self.expr(); self.expect(")"); return ("paren", e)
+            e = self.expr()
+            if self.accept(","):
+                items = [e]
+                while not self.accept(")"):
+                    items.append(self.expr()); self.accept(",")
+                return ("tuple", items)
+            self.expect(")"); return ("paren", e)
         if v == "[":
             items = []
             if self.accept("]"): return ("array", items)
@@ -248,6 +254,10 @@ class Gen:
         if kind == "deref": return self.expr(e[1], k, want)
         if kind == "num":
             return k(str(e[1]), e[2] or want)
+        if kind == "id" and e[1] == "None":
+            return k("None", ("opt", None))
+        if kind == "fncall" and e[1] == "Some" and len(e[2]) == 1:
+            return self.expr(e[2][0], lambda t, tt: k("(Some %s)" % t, ("opt", tt)))
         if kind == "id":
             name = e[1]
             if name in self.env:
@@ -278,6 +288,12 @@ class Gen:
                     return "match nth_error %s (N.to_nat %s) with None => None | Some %s =>\n  %s end" % (a, i, v, k(v, ta[1]))
                 return self.expr(e[2], ki, "usize")
             return self.expr(e[1], ka)
+        if kind == "tuple":
+            items = e[1]
+            def got(i, acc, tys):
+                if i == len(items): return k("(" + ", ".join(acc) + ")", ("tup", tuple(tys)))
+                return self.expr(items[i], lambda t, tt: got(i + 1, acc + [t], tys + [tt]))
+            return got(0, [], [])
         if kind == "array":
             items = e[1]
             def go(i, acc, ty):
@@ -459,7 +475,7 @@ class Gen:
             self.env = dict(saved)
             binder = "fun '%s" % pat if len(order) > 1 else "fun %s" % pat
             return "match while_loop fuel (%s =>\n  %s) (%s =>\n  %s) %s with None => None | Some %s =>\n  %s end" % (
-                binder, c, binder, b, pat, ("'" + pat) if len(order) > 1 else pat, self.stmts(rest, final))
+                binder, c, binder, b, pat, pat, self.stmts(rest, final))
         if s[0] == "let":
             name, ty, e = s[1], s[2], s[3]
             want = ty if ty in BITS else None
@@ -502,6 +518,19 @@ class Gen:
                 if akey is None or akey not in self.env or skey not in self.env: raise Untranslatable("external call argument")
                 sg, _ = self.env[skey]; ag, _ = self.env[akey]
                 return "match %s %s %s with None => None | Some (%s, %s) =>\n  %s end" % (fn_, sg, ag, sg, ag, self.stmts(rest, final))
+        if s[0] == "expr_stmt" and s[1][0] == "call" and s[1][2] == "reverse" and not s[1][3] and s[1][1][0] == "slice":
+            sl = s[1][1]
+            key = self.lhs_key(sl[1])
+            if key is None or key not in self.env: raise Untranslatable("reverse target")
+            g, ta = self.env[key]
+            def klo(lo, tl):
+                def khi(hi, th):
+                    return ("if N.of_nat (length %s) <? %s then None else if %s <? %s then None else\n  let %s := (firstn (N.to_nat %s) %s ++ rev (firstn (N.to_nat (%s - %s)) (skipn (N.to_nat %s) %s)) ++ skipn (N.to_nat %s) %s) in\n  %s"
+                            % (g, hi, hi, lo, g, lo, g, hi, lo, lo, g, hi, g, self.stmts(rest, final)))
+                if sl[3] is None: return khi("(N.of_nat (length %s))" % g, "usize")
+                return self.expr(sl[3], khi, "usize")
+            if sl[2] is None: return klo("0", "usize")
+            return self.expr(sl[2], klo, "usize")
         if s[0] == "expr_stmt":
             e = s[1]
             if e[0] == "call" and e[2] == "swap" and len(e[3]) == 2:
